@@ -11,7 +11,7 @@ use serde_json::json;
 
 use super::c07::minutes_opt;
 use super::common::*;
-use crate::engine::{chunk, mix, Failure, Prop, Stats, Tier, F};
+use crate::engine::{catch, chunk, mix, Failure, Prop, Stats, Tier, F};
 use crate::gen::{self, circ_diff, ParamSpec, Site, PRAYERS};
 use crate::oracle::rounding::{round, Mode};
 
@@ -47,7 +47,16 @@ fn hook_eval(mode: u8, prayer: u8, second: u32, frac: f64, wrap: i8, offset: f64
     let pr = PRAYERS[prayer as usize];
     params.minutes.insert(pr, offset);
     let hour = (second as f64 + frac) / 3600.0 + 24.0 * wrap as f64 - offset / 60.0;
-    let got = verif_hooks::hour_to_time(&params, pr, hour);
+    let got = match catch(|| verif_hooks::hour_to_time(&params, pr, hour)) {
+        Ok(g) => g,
+        Err(p) => {
+            return Err(Failure::new(
+                format!("rounding:hook:panic:{}", gen::ROUNDING_NAMES[mode as usize]),
+                "a clock time",
+                format!("{} (hour value {}, offset {} min, prayer {})", p, hour, offset, gen::PRAYER_NAMES[prayer as usize]),
+            ))
+        }
+    };
     let (h, m, s) = (second / 3600, (second / 60) % 60, second % 60);
     let want = round(MODES[mode as usize], prayer as usize, h, m, s);
     let g = (got.hour(), got.minute(), got.second());
